@@ -529,6 +529,21 @@ func Base.Split(n: int) => (string, []int, *Node) {
 	return this.note + itoa(n), append(this.hist, n), &Node{val: n, name: this.note}
 }
 
+type SS :struct {
+	x: string
+	y: string
+	z: []int
+}
+
+func hSSv(v: SS) => i64 {
+	return mix(mix(hStr(v.x), hStr(v.y)), hSI(v.z))
+}
+
+type K2 :struct {
+	p: string
+	q: string
+}
+
 type Strs :[]string
 
 func Strs.Join() => string {
@@ -988,6 +1003,10 @@ func (g *gen) formOps3() {
 	g.add("function-typed struct field", fmt.Sprintf("pre := %s\nd := Derived{cb: func(s: string) => string {\nreturn pre + s\n}}\nr := d.cb(\"k\")\ne := d\nr = e.cb(r)\nif len(r) > 150 {\nr = r[:20]\n}\n%s = r\nreturn hStr(r)", str("b"), str("a")))
 	g.add("three results through an interface", fmt.Sprintf("bs := &Base{note: %s, hist: %s}\nm: Multi = bs\nx, y, z := m.Split(c)\n_, y2, _ := m.Split(b)\nif len(x) > 150 {\nx = x[:20]\n}\nif len(y) > 40 {\ny = y[:4]\n}\n%s = x\n%s = y\nreturn hStr(x) + hSI(y) + hSI(y2) + hN(z)", str("b"), si("c"), str("a"), si("a")))
 	g.add("named slice type with method", fmt.Sprintf("v := Strs{%s, %s}\nv = append(v, \"t\")\nw := v[1:]\nr := v.Join() + w.Join()\nif len(r) > 150 {\nr = r[:20]\n}\n%s = r\nreturn hStr(r)", str("b"), str("c"), str("a")))
+	g.add("interface-to-interface assertions that fail", fmt.Sprintf("x: interface{} = &Res{name: %s, data: %s}\nn := 0\nif _, ok := x.(Shape); ok {\nn += 1\n}\nif _, ok := x.(Describer); ok {\nn += 2\n}\nif cl, ok := x.(Closer); ok {\nn += 4 + len(cl.Rows())\n}\nswitch t := x.(type) {\ncase Shape:\nn += t.Area()\ncase Multi:\nn += 100\ncase Closer:\nn += 1000\n}\ny: interface{} = %s\nif _, ok := y.(Shape); ok {\nn += 7\n}\nreturn i64(n)", str("b"), si("c"), str("c")))
+	g.add("struct value with two reference fields boxed", fmt.Sprintf("v := SS{x: %s, y: %s, z: %s}\nbx: interface{} = v\nby: interface{} = SS{x: v.y, y: v.x}\nh: i64 = 0\nif w, ok := bx.(SS); ok {\nh = hSSv(w)\n}\nif w2, ok := by.(SS); ok {\nh += hSSv(w2)\n}\nif bx == by {\nh += 1\n}\nbx = nil\nby = nil\n%s = v.x\nreturn h + hStr(v.y)", str("b"), str("c"), si("c"), str("a")))
+	g.add("map with two-reference-field struct values", fmt.Sprintf("m := make(map[int]SS)\nv := SS{x: %s, y: %s + \"y\", z: %s}\nfor i := 0; i < 1+c%%4; i++ {\nm[i] = v\ndelete(m, i)\n}\nm[b%%3] = v\nw := m[b%%3]\n%s = v.x\n%s = w.y\nreturn hSSv(w) + i64(len(m))", str("b"), str("c"), si("b"), str("a"), str("c")))
+	g.add("map keyed by a struct of two strings", fmt.Sprintf("m := make(map[K2]int)\nk1 := K2{p: %s, q: %s}\nk2 := K2{p: %s + \"1\", q: %s}\nm[k1] = b\nm[k2] = c\nm[k1] += 1\ndelete(m, k2)\nv, ok := m[K2{p: %s, q: %s}]\nif !ok {\nreturn -1\n}\n%s = k1.p\nreturn i64(v) + i64(len(m))", str("b"), str("c"), str("b"), str("c"), str("b"), str("c"), str("a")))
 	g.add("value selected among call arguments", fmt.Sprintf("r := pick3(c, %s, %s+\"q\", itoa(b))\n%s = r\nreturn hStr(r)", str("b"), str("c"), str("a")))
 	if g.has(kSliceStr) {
 		ss := func(i string) string { return S(kSliceStr, i) }
